@@ -3,21 +3,25 @@
 import json, os, glob
 root = os.path.dirname(os.path.dirname(os.path.abspath(__file__)))
 rows = []
-for d in sorted(glob.glob(os.path.join(root, "seeded", "C*"))):
+dirs = [os.path.dirname(m) for m in glob.glob(os.path.join(root, "seeded", "*", "meta.json"))]
+dirs.sort(key=lambda d: (json.load(open(os.path.join(d, "meta.json"))).get("round", 1), os.path.basename(d)))
+for d in dirs:
     sid = os.path.basename(d)
-    meta = json.load(open(os.path.join(d, "meta.json"))) if os.path.exists(os.path.join(d, "meta.json")) else {}
+    meta = json.load(open(os.path.join(d, "meta.json")))
     res = json.load(open(os.path.join(d, "result.json"))) if os.path.exists(os.path.join(d, "result.json")) else {}
     cells = []
     for c, r in sorted(res.items()):
-        viol = [l for l in r.get("lines", []) if l.startswith("VIOLATION")]
-        cells.append("%s: %s" % (c, "**VIOLATION**" if r["exit"] == 1 and viol else ("tool error" if r["exit"] == 2 else "not detected")))
-    rows.append((sid, meta.get("change", ""), meta.get("needs", ""), "; ".join(cells) or "not run yet"))
+        cells.append("%s: %s" % (c, "**VIOLATION**" if r["exit"] == 1 else ("tool error" if r["exit"] == 2 else "not detected")))
+    rows.append((sid, meta.get("round", 1), meta.get("property", sid[:3]), meta.get("change", ""), meta.get("needs", ""),
+                 "; ".join(cells) or "not run yet"))
 with open(os.path.join(root, "seeded", "RESULTS.md"), "w") as f:
     f.write("# Seeded changes (written by independent sub-agents from the property text only)\n\n")
     f.write("Each change compiles, passes the 35 unit tests and the doc tests, and comes with a demonstration that fails with it and\n"
             "passes without it (confirmed with `lib/seedverify.sh`). `lib/seedtest.py <id> [checks]` applies the patch to /repo, runs the\n"
             "quick check(s) and restores /repo.\n\n")
-    f.write("| id | change | needs | quick checks |\n|---|---|---|---|\n")
+    f.write("| id | round | property | change | needs | quick checks |\n|---|---|---|---|---|---|\n")
     for r in rows:
-        f.write("| %s | %s | %s | %s |\n" % r)
-print(open(os.path.join(root, "seeded", "RESULTS.md")).read()[-1500:])
+        f.write("| %s | %s | %s | %s | %s | %s |\n" % r)
+    det = sum(1 for r in rows if "**VIOLATION**" in r[5])
+    f.write("\n%d changes, %d detected by at least one quick check of the property they were written against.\n" % (len(rows), det))
+print(open(os.path.join(root, "seeded", "RESULTS.md")).read()[-400:])
